@@ -553,6 +553,7 @@ def lift_env(name):
     if name not in _lift:
         import warnings
         warnings.filterwarnings("ignore", category=SyntaxWarning)
+        warnings.filterwarnings("ignore", message="DEPRECATION WARNING")      # sem.py modules using deprecated accessors
         from mc import insngen as g
         t, mn = g.env(name)
         M = t.machine_obj()
@@ -613,56 +614,11 @@ def check_lifted(name, b, stats):
     return vs
 
 
-def operand_shape(instr):
-    out = []
-    for a in instr.args:
-        if a.is_mem():
-            out.append("m%d" % a.size)
-        elif a.is_int():
-            out.append("i")
-        elif a.is_id():
-            out.append("r%d" % a.size)
-        else:
-            out.append("x%d" % a.size)
-    return tuple(out)
-
-
-def select_vectors(name, one_per_shape):
-    """Indexes (into insngen.curated(name)) of the vectors of the tier: all of them, or the first vector (in insngen's
-    order: shortest, then lexicographic) of every distinct (mnemonic, operand shape)."""
-    from mc import insngen as g
-    cur = g.curated(name)
-    if not one_per_shape:
-        return list(range(len(cur)))
-    if name in _select:
-        return _select[name]
-    lift_env(name)
-    seen = set()
-    out = []
-    for i, b in enumerate(cur):
-        try:
-            instr = g.decode(name, g.raw_of(name, "curated", b))
-        except Exception:
-            instr = None
-        if instr is None:
-            continue
-        key = (instr.name, operand_shape(instr))
-        if key not in seen:
-            seen.add(key)
-            out.append(i)
-    _select[name] = out
-    return out
-
-
-_select = {}
-
-
 def _shard_lifted(args):
     from mc import insngen as g
-    name, one_per_shape, part, nparts = args
+    name, part, nparts = args
     cur = g.curated(name)
-    sel = select_vectors(name, one_per_shape)
-    idxs = sel[part::nparts]
+    idxs = list(range(len(cur)))[part::nparts]
     stats = {"vectors_of_target": len(cur) if part == 0 else 0}
     best = {}
     sample = None
@@ -704,13 +660,12 @@ def run(ctx):
         for lo in range(0, total, step):
             shards.append(("irgen", tier, pi, lo, min(total, lo + step)))
     targets = PLAN_LIFTED[tier] or list(g.LIFT_TARGETS)
-    # the parent process stays small (no miasm import before the pool forks): a shard is (target, part k of n) and the
-    # worker derives the tier's vector selection itself
+    # the parent process stays small (no miasm import before the pool forks): a shard is (target, part k of n)
     for name in targets:
         n = len(g.curated(name))
         nparts = max(1, n // (250 if tier == "quick" else 120))
         for k in range(nparts):
-            shards.append(("lifted", name, False, k, nparts))
+            shards.append(("lifted", name, k, nparts))
     if ctx.quick:
         # ~25 s of work: one warm process beats a pool of 16 cold ones (imports, fork) on a loaded machine
         res = [_shard(s) for s in shards]
